@@ -477,4 +477,88 @@ Proof.
       fcrush.
 Qed.
 
+(* ---------- which cache entry a re-used token comes from ---------- *)
+(* the keys Client.Do looks up: the canonical join of the hinted scopes, or of
+   CleanScopes(hinted ++ scopes of the challenge) *)
+Definition do_key (clean : list str -> list str) (rq : request) (k : str) : Prop :=
+  let hinted := get_all_scopes clean (rq_hints_host rq) (rq_hints_global rq) in
+  k = join [c_space] hinted \/ exists extra, k = join [c_space] (clean (hinted ++ extra)).
+
+Definition cached_send_ok (clean : list str -> list str) (f : flavour) (c : cc) (rq : request) (ev : event) : Prop :=
+  match fst ev with
+  | SReg h (ABearer t) false =>
+    h = rq_host rq /\ exists k, do_key clean rq k /\ cache_get_token f c h SchBearer k = Some t
+  | SReg h (ABasic t) false => h = rq_host rq /\ cache_get_token f c h SchBasic [] = Some t
+  | _ => True
+  end.
+
+Lemma first_attempt_cached f c h (hinted : list str) :
+  match snd (match cache_get_scheme f c h with
+    | Some SchBasic =>
+      (@nil N, match cache_get_token f c h SchBasic [] with Some t => ABasic t | None => NoAuth end)
+    | Some SchBearer =>
+      (join [c_space] hinted,
+       match cache_get_token f c h SchBearer (join [c_space] hinted) with Some t => ABearer t | None => NoAuth end)
+    | _ => ([], NoAuth)
+    end) with
+  | ABasic t => cache_get_token f c h SchBasic [] = Some t
+  | ABearer t => cache_get_token f c h SchBearer (join [c_space] hinted) = Some t
+  | NoAuth => True
+  end.
+Proof.
+  destruct (cache_get_scheme f c h) as [[| |]|]; simpl; auto.
+  - destruct (cache_get_token f c h SchBasic []) eqn:E; simpl; auto.
+  - destruct (cache_get_token f c h SchBearer _) eqn:E; simpl; auto.
+Qed.
+
+Ltac ksolve :=
+  repeat match goal with
+  | |- _ /\ _ => split
+  | |- exists k, do_key _ _ k /\ _ =>
+    eexists; split; [| first [eassumption | congruence]];
+    [unfold do_key; first [left; reflexivity | right; eexists; reflexivity]]
+  | |- do_key _ _ _ => unfold do_key; first [left; reflexivity | right; eexists; reflexivity]
+  | |- _ = _ => first [reflexivity | eassumption | congruence]
+  | |- True => exact I
+  end.
+
+Ltac kleaf :=
+  simpl; repeat (apply Forall_cons || apply Forall_nil); unfold cached_send_ok; simpl; auto;
+  try (match goal with
+       | H : match ?a with NoAuth => True | ABasic _ => _ | ABearer _ => _ end |- _ =>
+         destruct a; simpl in *; auto;
+         repeat match goal with Hs : Some _ = Some _ |- _ => injection Hs as Hs; try subst end;
+         ksolve
+       end);
+  try ksolve.
+
+Ltac kcrush :=
+  repeat (match goal with
+  | |- context [match ?s with [] => _ | _ :: _ => _ end] => is_var s; destruct s as [|[| ? | ? | | ] ?]
+  | |- context [if ?b then _ else _] => destruct b eqn:?
+  end; cbn beta iota); kleaf.
+
+(* every token that Client.Do re-uses (a send that is not fresh) was found in the
+   cache as it was when the call started, under the request's host, the scheme,
+   and one of the request's own keys *)
+Lemma do_request_cached_sends clean cf c rq script :
+  let '(evs, c', r) := do_request clean parse cf c rq script in
+  Forall (cached_send_ok clean (cf_flavour cf) c rq) evs.
+Proof.
+  unfold do_request.
+  pose proof (first_attempt_cached (cf_flavour cf) c (rq_host rq)
+                (get_all_scopes clean (rq_hints_host rq) (rq_hints_global rq))) as H1.
+  destruct (match cache_get_scheme (cf_flavour cf) c (rq_host rq) with
+            | Some SchBasic => _ | Some SchBearer => _ | _ => _ end) as [attempted a1].
+  simpl in H1.
+  destruct script as [|[| hdr | id | | ] script1]; try (kleaf; fail).
+  destruct (parse hdr) as [[| |] ps] eqn:Ech; try (kleaf; fail).
+  - unfold fetch_basic, final_send. kcrush.
+  - cbv zeta. unfold fetch_bearer_plan, final_send.
+    destruct (is_empty (get_param s_scope ps)) eqn:Ee; cbn beta iota;
+      (destruct (str_eqb _ attempted) eqn:Ek; [kcrush|];
+       match goal with |- context [cache_get_token ?f ?c0 ?h0 SchBearer ?k] =>
+         destruct (cache_get_token f c0 h0 SchBearer k) as [tok2|] eqn:E2 end; kcrush).
+Qed.
+
 End WithParse.
